@@ -3,6 +3,7 @@ package main
 import (
 	"fmt"
 	"math/big"
+	"os"
 	"go/ast"
 	"go/parser"
 	"go/token"
@@ -294,6 +295,46 @@ func isLoopHeader(b *ssa.BasicBlock) bool {
 	return false
 }
 
+// pureScalarLoop: the natural loop of header h contains only scalar computation (no store, no
+// call, no map update, no allocation) and its loop-carried values are scalars.
+func pureScalarLoop(h *ssa.BasicBlock) bool {
+	body := map[*ssa.BasicBlock]bool{h: true}
+	var stack []*ssa.BasicBlock
+	for _, p := range h.Preds {
+		if h.Dominates(p) && !body[p] {
+			body[p] = true
+			stack = append(stack, p)
+		}
+	}
+	for len(stack) > 0 {
+		b := stack[len(stack)-1]
+		stack = stack[:len(stack)-1]
+		for _, p := range b.Preds {
+			if !body[p] && h.Dominates(p) {
+				body[p] = true
+				stack = append(stack, p)
+			}
+		}
+	}
+	for b := range body {
+		for _, ins := range b.Instrs {
+			switch x := ins.(type) {
+			case *ssa.Phi:
+				if _, ok := x.Type().Underlying().(*types.Basic); !ok {
+					return false
+				}
+			case *ssa.BinOp, *ssa.UnOp, *ssa.Convert, *ssa.ChangeType, *ssa.If, *ssa.Jump, *ssa.DebugRef:
+				if u, ok := ins.(*ssa.UnOp); ok && u.Op == token.MUL {
+					return false // loads: the loop reads memory, keep it concrete
+				}
+			default:
+				return false
+			}
+		}
+	}
+	return true
+}
+
 func (e *bEngine) pushFrame(st *bState, fn *ssa.Function, args []bVal, call ssa.CallInstruction, bindings []bVal) {
 	fr := &bFrame{fn: fn, vals: map[interface{}]bVal{}, visits: map[int]int{}, prev: -1}
 	for i, p := range fn.Params {
@@ -357,7 +398,19 @@ func (e *bEngine) runPath(st *bState, work *[]*bState, atReturn func(st *bState,
 		fr := st.frames[len(st.frames)-1]
 		fn := fr.fn.(*ssa.Function)
 		blk := fn.Blocks[fr.block]
-		if fr.pc == 0 && isLoopHeader(blk) {
+		if fr.pc == 0 && e.loopAbs && isLoopHeader(blk) && pureScalarLoop(blk) {
+			// loopabs: a loop that only computes scalars is cut with the invariant `true`: its header
+			// is entered once with every loop-carried value unknown; the back edge adds nothing
+			if fr.abs == nil {
+				fr.abs = map[int]bool{}
+			}
+			if fr.abs[fr.block] {
+				e.endPath("back edge of an abstracted scalar loop")
+				return
+			}
+			fr.abs[fr.block] = true
+			e.note("loopabs: scalar-only loops are cut with invariant true (loop-carried values unknown at the header)")
+		} else if fr.pc == 0 && isLoopHeader(blk) {
 			fr.visits[fr.block]++
 			if fr.visits[fr.block] > e.maxUnwind+1 {
 				// unwinding assertion: under the contract's preconditions the loop has exited by now
@@ -371,6 +424,10 @@ func (e *bEngine) runPath(st *bState, work *[]*bState, atReturn func(st *bState,
 		switch x := ins.(type) {
 		case *ssa.DebugRef:
 		case *ssa.Phi:
+			if fr.abs[fr.block] {
+				fr.vals[x] = e.symVal(st, e.freshName("loop."+x.Name()), x.Type())
+				break
+			}
 			var chosen ssa.Value
 			for i, p := range blk.Preds {
 				if p.Index == fr.prev {
@@ -416,17 +473,22 @@ func (e *bEngine) runPath(st *bState, work *[]*bState, atReturn func(st *bState,
 				panic(verr("non-scalar index"))
 			}
 			idx = st.norm(idx)
+			var key string
 			if !idx.IsConst() {
-				panic(verr("symbolic index %s at %s (give the contract a case/unwind that makes it concrete)", idx.Key(), e.fp.fset.Position(x.Pos())))
+				// a read at a symbolic index yields the element named by the index term (two different
+				// terms name unrelated elements: imprecise, never wrong for reads); stores are refused
+				key = "[?" + idx.Key() + "]"
+				e.note("reads at a symbolic index yield an element named by the index term")
+			} else {
+				key = "[" + idx.Val.String() + "]"
 			}
-			key := "[" + idx.Val.String() + "]"
 			switch b := e.get(st, fr, x.X).(type) {
 			case bSlice:
 				if b.nil_ {
 					panic(bPathEnd{"index into nil slice"})
 				}
 				ln := st.norm(b.len)
-				if ln.IsConst() && (idx.Val.Sign() < 0 || idx.Val.Cmp(ln.Val) >= 0) {
+				if ln.IsConst() && idx.IsConst() && (idx.Val.Sign() < 0 || idx.Val.Cmp(ln.Val) >= 0) {
 					panic(bPathEnd{"index out of range"})
 				}
 				fr.vals[x] = bPtr{obj: b.arr, path: "/" + key}
@@ -468,6 +530,9 @@ func (e *bEngine) runPath(st *bState, work *[]*bState, atReturn func(st *bState,
 				fr.vals[x] = e.symVal(st, e.freshName("unop"), x.Type())
 			}
 		case *ssa.BinOp:
+			if os.Getenv("LVC_DEBUG") != "" {
+				fmt.Fprintf(os.Stderr, "binop %s: %s | %s | %s\n", e.fp.fset.Position(x.Pos()), x.String(), describeVal(e.get(st, fr, x.X)), describeVal(e.get(st, fr, x.Y)))
+			}
 			fr.vals[x] = e.binop(st, x.Op, e.get(st, fr, x.X), e.get(st, fr, x.Y), x.Type())
 		case *ssa.Store:
 			p, ok := e.get(st, fr, x.Addr).(bPtr)
@@ -485,6 +550,9 @@ func (e *bEngine) runPath(st *bState, work *[]*bState, atReturn func(st *bState,
 					fr.vals[x] = v
 					break
 				}
+				fr.vals[x] = e.symVal(st, e.freshName("conv"), x.Type())
+			} else if b, isB := x.Type().Underlying().(*types.Basic); isB && b.Info()&(types.IsInteger|types.IsBoolean) != 0 {
+				// float -> int and the like: an unconstrained value of the target type
 				fr.vals[x] = e.symVal(st, e.freshName("conv"), x.Type())
 			} else {
 				fr.vals[x] = v
@@ -1107,6 +1175,7 @@ func (e *bEngine) verify(caseSpec string) {
 	for _, s := range con.Raw["maxpaths"] {
 		fmt.Sscanf(s, "%d", &e.maxPaths)
 	}
+	e.loopAbs = len(con.Raw["loopabs"]) > 0
 	e.safety = len(con.Raw["safety"]) > 0
 	e.nilable = len(con.Raw["nilable"]) > 0
 	e.allocMax = pow2(32)
